@@ -43,8 +43,8 @@ FALSY = {
 }
 REG_NAMESPACES = ['/chat', None, '/', '/a/b', '/x']
 
-REASONS = [(32, 'raises-or-no-call'), (16, 'arg'), (8, 'namespace'), (4, 'result'),
-           (64, 'other-param'), (128, 'bound-twice')]
+REASONS = [(32, 'raises-or-no-call'), (256, 'wrong-method'), (16, 'arg'), (8, 'namespace'), (4, 'result'),
+           (64, 'unexposed-param-altered'), (128, 'bound-twice')]
 
 
 class Result:
@@ -117,11 +117,11 @@ def make_recording_class(real_cls, methods):
         sig = inspect.signature(real)
         is_async = inspect.iscoroutinefunction(real)
         names = [p for p in sig.parameters]
-        src = '%sdef inner%s:\n    return _bound(%s)\n' % (
-            'async ' if is_async else '', sig, ', '.join('(%r, %s)' % (n, n) for n in names[1:]))
+        src = '%sdef %s%s:\n    return _bound(%s)\n' % (
+            'async ' if is_async else '', m, sig, ', '.join('(%r, %s)' % (n, n) for n in names[1:]))
         scope = {'_bound': lambda *items: list(items)}
         exec(compile(src, '<recorder %s.%s>' % (real_cls.__name__, m), 'exec'), scope)
-        inner = scope['inner']
+        inner = scope[m]
 
         def make(m=m, inner=inner, is_async=is_async):
             if is_async:
@@ -413,9 +413,12 @@ def run(chk):
         'truthiness of caller values is PyVal.truthy; objects with a user-defined __bool__/__len__ are '
         'represented by whatever truth value they have (the theorem quantifies over all pv values)']
     proved = chk.prove()
+    if not fwd2coq.vo_is_fresh():
+        chk.broken_obligation('coq/Forward/Gen_forward.vo was not compiled from the current Gen_forward.v '
+                              '(another process regenerated it from a different tree during the build); rerun')
 
     # the generated text and what the translator said about it
-    text, tmsgs, desc = fwd2coq.translate()
+    _text, tmsgs, desc = fwd2coq.translate()
     untranslated = [d for d in desc if not d['translated']]
     chk.extra['translator_messages'] = tmsgs
     chk.extra['unexposed_underlying_parameters'] = [
@@ -438,7 +441,7 @@ def run(chk):
     scenarios = build_scenarios(chk, world)
     results = asyncio.run(run_all(scenarios))
 
-    cases, meta = [], []
+    cases, meta, sampled = [], [], set()
     for sc, res in zip(scenarios, results):
         row, m = sc['row'], sc['m']
         if res is None:
@@ -455,8 +458,10 @@ def run(chk):
         key = None if trivial else (row['hcls'], m, len(sc['pos_names']), tuple(sorted(sc['kw_order'])),
                                     variant, sc['vi'])
         sample = None
-        if not trivial and len(sc['kw_order']) >= 2 and len(chk.samples) < 6 and \
-                len(sc['pos_names']) == 1 + len(chk.samples) % 2 and m in ('emit', 'call', 'send'):
+        skey = (row['hcls'], variant)
+        if not trivial and len(sc['kw_order']) >= 2 and len(sc['pos_names']) >= 1 and skey not in sampled \
+                and m in ('emit', 'call', 'send') and (len(sampled) % 2 == 0 or 'namespace' in sc['kw_order']):
+            sampled.add(skey)
             sample = {'call': describe_call(row, m, sc['reg_ns'], sc['pos_names'], kw_items, sc['values']),
                       'registered_as': self_ns, 'received': short_obs(o)}
         chk.count(1, key, sample)
@@ -566,12 +571,15 @@ def diagnose(chk, desc):
     for d, chunk in zip(desc, chunks):
         body = chunk.split(': bool')[0]
         static = body.strip().startswith('(true')
-        subsets = []
-        inner = body[body.index(','):]
-        import re
-        for grp in re.findall(r'\[([0-9;%a-z\s]*)\]', inner):
-            idxs = [int(x) for x in re.findall(r'\d+', grp)]
-            subsets.append([d['hsig'][i][0] for i in idxs if i < len(d['hsig'])])
+        import ast as _ast
+        inner = body[body.index(',') + 1:].strip()
+        inner = inner[:inner.rindex(')')].replace('%nat', '').replace(';', ',')
+        try:
+            idx_lists = _ast.literal_eval(''.join(inner.split()))
+        except (ValueError, SyntaxError):
+            chk.broken_obligation('diagnosis output not understood for %s: %s' % (d['h'], body[:200]))
+            idx_lists = []
+        subsets = [[d['hsig'][i][0] for i in l if i < len(d['hsig'])] for l in idx_lists]
         if not static or subsets or not d['translated']:
             subsets.sort(key=len)
             info = 'static shape %s, %d failing argument subsets, smallest: %s' % (
@@ -614,6 +622,15 @@ def replay(chk, data):
         print(json.dumps(r, indent=1)[:3000])
         return 1
     rc, out = coqio.eval_print('c17_replay', IMPORTS, '', terms)
-    print(out)
-    first = out.split('\n')[0] if out else ''
-    return 0 if rc == 0 and first.strip().startswith('= 0') else 1
+    import re
+    m = re.search(r'=\s*(\d+)', out)
+    if rc != 0 or not m:
+        print(out)
+        return 1
+    code = int(m.group(1))
+    print('verdict  : c17_eval = %d%s%s' % (
+        code, ' [model and implementation disagree]' if code & 1 else '',
+        ' [PROPERTY VIOLATED: %s]' % ', '.join(n for b, n in REASONS if code & b) if code & 2 else ''))
+    if os.environ.get('VERIF_VERBOSE'):
+        print(out)
+    return 0 if code == 0 else 1
